@@ -12,7 +12,7 @@ node = {
   'mode': 'gated' | 'coro' | 'inline' | 'thread' | 'process'
   'rec_dest': bool            -> derives RecurrentProcessor
   'additional_data': bool     -> declares the additional_data parameter
-  'attempts': None|int, 'delay': None|number, 'exceptions': None|[ 'ErrA', ...], 'use_default': bool
+  'attempts': None|int, 'delay': None|number, 'exceptions': None|[ 'ErrA'|'ErrA2'|'ErrB'|'ErrC'|'NodeFail', ...], 'use_default': bool
   'generic': bool             -> produced through build_node() from a generic base
   'generic_base': str         -> generic nodes with the same value are built from ONE shared variadic base class
   'named': bool               -> explicit `name` attribute (else module_Class derived id)
@@ -21,7 +21,7 @@ node = {
 }
 variant = {
   'x': int,                                     # becomes input_kwargs['x']
-  'nodes': { id: { 'outcomes': ['ok'|'ErrA'|'ErrB'|'ErrC'|'Fatal', ...]  # by invocation index in this run
+  'nodes': { id: { 'outcomes': ['ok'|'ErrA'|'ErrA2'(subclass of ErrA)|'ErrB'|'ErrC'|'Fatal', ...]  # by invocation index in this run
                    'tail': 'ok'|'ErrA'|...,      # outcome after the list is exhausted
                    'label': str,                 # switch nodes: the label they return
                    'rec_n': int,                 # destinations: ask next_iteration while iteration tag < rec_n
